@@ -142,9 +142,7 @@ class Task:
             self.tb = traceback.format_exc()
         finally:
             _tls.task = None
-            self.state = "done" if not self.aborted else self.state
-            if self.aborted:
-                self.state = "done"
+            self.state = "done"
             self.vc[self.tid] = self.vc.get(self.tid, 0) + 1
             self.sim.ctrl.release()
 
@@ -165,12 +163,14 @@ class Sim:
         fs_root: str | None = None,
         cores: int = 4,
         default_choice: int | None = None,
+        policy: str = "prng",
     ) -> None:
         self.seed = seed
         self.prng = Prng(mix("sched", seed))
         self.replay = list(choices) if choices is not None else None
         self.replay_pos = 0
         self.default_choice = default_choice
+        self.policy = policy  # prng | first | last | rr  (ignored under replay)
         self.choices: list[int] = []
         self.step_cap = step_cap
         self.cores = cores
@@ -272,6 +272,12 @@ class Sim:
             self.replay_pos += 1
         elif self.default_choice is not None:
             idx = self.default_choice % n
+        elif self.policy == "first":
+            idx = 0
+        elif self.policy == "last":
+            idx = n - 1
+        elif self.policy == "rr":
+            idx = self.steps % n
         else:
             idx = self.prng.below(n)
         self.choices.append(idx)
